@@ -82,13 +82,15 @@ theorem written_tensors (d : Desc) (enum : List Code) (m : ModelT) (h : writeWit
 
 /-- **tensor_indices_bijective.** The tensor list of a written subgraph has no repetition and as many entries as the file's
 tensor table: "position in the table" and "tensor of the graph that is written" are in one-to-one correspondence; a tensor is
-written iff it is an original input or an operand of a written operator or of a Placeholder. -/
+written iff it is an original input, an operand of a written operator or of a Placeholder, or (repair C11-60) a subgraph output
+that is left after the virtual outputs were removed. -/
 theorem tensor_indices_bijective (d : Desc) (enum : List Code) (m : ModelT) (h : writeWith d enum = .ok m) :
     ∃ subs, (subgraphsToWrite d).mapM (prepSub d.tensors) = .ok subs ∧
       ∀ (k : Nat) ps sg, subs[k]? = some ps → m.subgraphs[k]? = some sg →
         (sgAll d.tensors ps).Nodup ∧ sg.tensors.length = (sgAll d.tensors ps).length ∧
         ∀ g, g ∈ sgAll d.tensors ps ↔
-          g ∈ ps.sg.originalInputs ∨ ∃ op ∈ sgOps ps, (op.ignored = false ∨ op.placeholder = true) ∧ some g ∈ op.operands := by
+          (g ∈ ps.sg.originalInputs ∨ ∃ op ∈ sgOps ps, (op.ignored = false ∨ op.placeholder = true) ∧ some g ∈ op.operands) ∨
+            g ∈ sgOuts ps := by
   obtain ⟨subs, _, st, _, h1, _, _, _, _, acc, _⟩ := write_facts d enum m h
   refine ⟨subs, h1, ?_⟩
   intro k ps sg hk hs
@@ -196,7 +198,31 @@ theorem written_interface (d : Desc) (enum : List Code) (m : ModelT) (h : writeW
   rw [mem_sgAll]
   unfold sgSet
   rw [mem_tensorSet]
-  exact Or.inl hg
+  exact Or.inl (Or.inl hg)
+
+/-- **written_outputs_complete** (repair C11-60: a constant that only the output list names used to be left out of the tensor table
+and then silently dropped from the file's output list). Every entry of the expanded output list is a written tensor, so the filter
+in `written_interface` drops nothing: the file's output list has one entry per listed output, each the table position of that very
+tensor. -/
+theorem written_outputs_complete (d : Desc) (enum : List Code) (m : ModelT) (h : writeWith d enum = .ok m) :
+    ∃ subs, (subgraphsToWrite d).mapM (prepSub d.tensors) = .ok subs ∧
+      ∀ (k : Nat) ps sg, subs[k]? = some ps → m.subgraphs[k]? = some sg →
+        ∃ outs2 outs, outputList ps.sg.originalOutputPositions (sgOuts ps) = .ok outs2 ∧ sg.outputs = some outs ∧
+          List.Forall₂ (fun g (i : Int) => ∃ n : Nat, i = n ∧ (sgAll d.tensors ps)[n]? = some g) outs2 outs := by
+  obtain ⟨subs, h1, hw⟩ := written_interface d enum m h
+  refine ⟨subs, h1, ?_⟩
+  intro k ps sg hk hs
+  obtain ⟨_, ⟨outs2, outs, ho, hou, hf⟩, _⟩ := hw k ps sg hk hs
+  refine ⟨outs2, outs, ho, hou, ?_⟩
+  have hall : outs2.filter (· ∈ sgAll d.tensors ps) = outs2 := by
+    rw [List.filter_eq_self]
+    intro g hg
+    have hg2 : g ∈ sgOuts ps := Spec.specOuts2_sub ps g (by rw [Spec.specOuts2_eq ps outs2 ho]; exact hg)
+    have : g ∈ sgAll d.tensors ps := by
+      rw [mem_sgAll]; unfold sgSet; rw [mem_tensorSet]; exact Or.inr hg2
+    simpa using this
+  rw [hall] at hf
+  exact hf
 
 /-- **buffers_consistent.** Every buffer index written (by a tensor, by a metadata entry) is in range; as soon as one
 subgraph is written, buffer 0 exists and carries no data; no buffer other than 0 is used twice — not by two tensors (of the same
@@ -666,7 +692,7 @@ the checker. The domain (`Spec.conformsDomainB`, executable) has three clauses, 
 the checker is stricter than the writer there. -/
 
 /-- **conforms_write.** For every description `d` in the domain — at least one subgraph is written; every subgraph output (virtual
-outputs removed, original positions expanded) is a written tensor; a Placeholder has no operands or intermediates of its own — the
+outputs removed) is named by the expanded output list or written anyway; a Placeholder has no operands or intermediates of its own — the
 Spec's checker finds no problem in the file `writeWith d enum` produces (any iteration order `enum` of the code set). -/
 theorem conforms_writeWith (d : Desc) (enum : List Code) (m : ModelT) (hd : Spec.conformsDomainB d = true)
     (h : writeWith d enum = .ok m) : Spec.conforms d m = [] := by
@@ -709,13 +735,22 @@ theorem conforms_write_no_cpu_witness :
     let d : Desc := { tensors := [], subgraphs := [Demo.npu], metadata := [], version := [49] }
     ((write d).toOption.map fun m => (Spec.conforms d m).map (·.kind)) = some ["buffer-0-not-empty"] := by decide +kernel
 
-/-- **conforms_write_witness (dropped output).** A subgraph output that is neither an original input nor an operand of a written
-operator or of a Placeholder — here the result of a `Const` nobody reads — is silently left out of the file's output list
-(`if tens in self.tensor_map_sg`); the Spec reports the missing entry — the second domain clause is needed. -/
-theorem conforms_write_dropped_output_witness :
+/-- **conforms_write_witness (unlisted output).** Since the repair C11-60 every subgraph output that is left after the virtual outputs
+were removed is written. One that the original output positions do not name — here `w_reshape` (tensor 2, the result of a `Const`
+nobody reads; positions `[0]` of outputs `[7, 2]`) — is in the file's tensor table without any operator or interface list referring
+to it; the Spec reports it — the second domain clause is needed. (Before the repair the same graph with positions `none` was the
+witness of the opposite defect: the listed output was dropped, `operand-count`.) -/
+theorem conforms_write_unlisted_output_witness :
+    let d : Desc := { demo with subgraphs := [{ Demo.sg with outputTensors := [7, 2], originalOutputPositions := some [0] }, Demo.npu] }
+    ((write d).toOption.map fun m => (Spec.conformsDomainB d, (m.subgraphs.map (·.tensors.length)), (Spec.conforms d m).map (·.kind))) =
+      some (false, [8], ["unexplained-tensor"]) := by decide +kernel
+
+/-- the graph of the old witness (outputs `[7, 2]`, tensor 2 only named by the output list) is now in the domain and both outputs are
+in the file -/
+example :
     let d : Desc := { demo with subgraphs := [{ Demo.sg with outputTensors := [7, 2], originalOutputPositions := none }, Demo.npu] }
-    ((write d).toOption.map fun m => ((m.subgraphs.map (·.outputs)), (Spec.conforms d m).map (·.kind))) =
-      some ([some [2]], ["operand-count"]) := by decide +kernel
+    ((write d).toOption.map fun m => (Spec.conformsDomainB d, m.subgraphs.map (·.outputs), (Spec.conforms d m).map (·.kind))) =
+      some (true, [some [2, 4]], []) := by decide +kernel
 
 /-- **conforms_write_witness (Placeholder with an operand).** The writer adds the operands of Placeholders to the tensor table; one
 that nothing else refers to is in the file without any operator or interface list naming it; the Spec explains unreferenced tensors
